@@ -84,9 +84,9 @@ def generate(rng: random.Random, tier: str):
     for _ in range(1500 if thorough else 200):
         n = rng.randint(1, 4)
         cases.append({'kind': 'expr', 'n': n, 'e': rand_tree(rng, rng.randint(2, 6 if thorough else 5), n, 3), 'seed': rng.randrange(1 << 30)})
-    for _ in range(40 if thorough else 10):
+    for i in range(40 if thorough else 10):
         cases.append({'kind': 'samp_gram', 'seed': rng.randrange(1 << 30)})
-        cases.append({'kind': 'fourier_gram', 'seed': rng.randrange(1 << 30), 'flavour': rng.choice(['cart', 'radial', 'mixed'])})
+        cases.append({'kind': 'fourier_gram', 'seed': rng.randrange(1 << 30), 'flavour': ['cart', 'radial', 'mixed', 'random3d', 'random1d'][i % 5]})
     for _ in range(150 if thorough else 40):
         cases.append({'kind': 'opmatrix', 'seed': rng.randrange(1 << 30)})
     from harness.props import c04_matrix
@@ -282,7 +282,17 @@ def run_fourier_gram(case, drv) -> Outcome:
     rng = random.Random(case['seed'])
     fl = case['flavour']
     ny, nx = rng.choice([6, 8]), rng.choice([6, 8])
-    if fl == 'cart':
+    nz = 1
+    kz = torch.zeros(1, 1, 1, 1, dtype=torch.float64)
+    if fl == 'random3d':  # rank-3 NUFFT (3-D radial / cones / measured trajectories)
+        nz = rng.choice([4, 5, 6])
+        k1, k0 = 6, 9
+        kz, ky, kx = (torch.tensor([rng.uniform(-n / 2, n / 2 - 0.01) for _ in range(k1 * k0)], dtype=torch.float64).reshape(1, 1, k1, k0) for n in (nz, ny, nx))
+    elif fl == 'random1d':  # rank-1 NUFFT: only the readout direction is encoded
+        ny = 1
+        ky = torch.zeros(1, 1, 1, 1, dtype=torch.float64)
+        kx = torch.tensor([rng.uniform(-nx / 2, nx / 2 - 0.01) for _ in range(11)], dtype=torch.float64).reshape(1, 1, 1, -1)
+    elif fl == 'cart':
         ky = torch.tensor(rng.sample(range(-ny // 2, ny // 2), ny - 2), dtype=torch.float64).reshape(1, 1, -1, 1)
         kx = torch.arange(-nx // 2, nx // 2, dtype=torch.float64).reshape(1, 1, 1, -1)
     elif fl == 'radial':
@@ -296,11 +306,11 @@ def run_fourier_gram(case, drv) -> Outcome:
         k0 = nx if case['seed'] % 2 else 7
         fl = fl + ('_k0eq' if k0 == nx else '_k0ne')
         kx = torch.tensor([rng.uniform(-nx / 2, nx / 2 - 0.01) for _ in range(k0)], dtype=torch.float64).reshape(1, 1, 1, -1)
-    traj = KTrajectory(torch.zeros(1, 1, 1, 1, dtype=torch.float64), ky, kx, repeat_detection_tolerance=None)
+    traj = KTrajectory(kz, ky, kx, repeat_detection_tolerance=None)
     with warnings.catch_warnings():
         warnings.simplefilter('ignore')
-        op = mrpro.operators.FourierOp(SpatialDimension(1, ny, nx), SpatialDimension(1, ny, nx), traj)
-        x = int_tensor(rng, (1, 2, 1, ny, nx)).to(torch.complex128)
+        op = mrpro.operators.FourierOp(SpatialDimension(nz, ny, nx), SpatialDimension(nz, ny, nx), traj)
+        x = int_tensor(rng, (1, 2, nz, ny, nx)).to(torch.complex128)
         (b,) = op.adjoint(op(x)[0])
         st, a = call(lambda: op.gram(x)[0])
     if st != 'ok':
@@ -311,7 +321,7 @@ def run_fourier_gram(case, drv) -> Outcome:
     tol = 1e-10 if fl == 'cart' else 2e-2  # Toeplitz/KB-NUFFT accuracy
     viol = None
     if err > tol:
-        viol = {'signature': f'fourier_gram:{fl}', 'what': f'FourierOp.gram(x) differs from adjoint(forward(x)) by rel {err:.2e} ({fl}, {ny}x{nx})'}
+        viol = {'signature': f'fourier_gram:{fl}', 'what': f'FourierOp.gram(x) differs from adjoint(forward(x)) by rel {err:.2e} ({fl}, {nz}x{ny}x{nx})'}
     return Outcome(key=('fourier_gram', fl, ny, nx, case['seed'] % 5), viol=viol, branches=[f'fourier_gram:{fl}'], sample={'flavour': fl, 'ny': ny, 'nx': nx, 'rel_err': err})
 
 
